@@ -247,6 +247,9 @@ func (ex *Exec) inlineCall(caller *Frame, st *State, fn *ssa.Function, args []Va
 func (ex *Exec) opaqueCall(fr *Frame, st *State, fn *ssa.Function, args []Val, pos token.Pos) Val {
 	keys, top := ex.modSet(fn)
 	ex.note("call of %s without contract: effects over-approximated by its syntactic write set", funcKey(fn))
+	if ex.assignsActive() && (top || len(keys) > 0) {
+		ex.obligeHere(st, "assigns", "callee-without-contract:"+funcKey(fn), "false", "a function with a modifies clause calls "+funcKey(fn)+", which has no contract")
+	}
 	if top {
 		ex.havocAll(st, "callee "+funcKey(fn)+" may call unknown functions")
 	} else {
